@@ -87,6 +87,24 @@ Section StateChange.
   Definition sc_sync (local : sc_db) (b : sc_block) (cs : sc_change) : sc_res :=
     if sc_valid (sc_root cs) (sc_nodes cs) then sc_apply local b cs true else ScErr EInvalid.
 
+  (* ---- the proposed repair: after MergeDB, every node a new node refers to must be available
+     (in the change set or in the local db), otherwise the set is malformed ---- *)
+  Definition sc_refs_ok (db nodes : sc_db) : bool :=
+    forallb (fun n => forallb (sc_has db) (children n)) nodes.
+
+  Definition sc_apply_fix (local : sc_db) (b : sc_block) (cs : sc_change) (computed : bool) : sc_res :=
+    match sc_apply local b cs computed with
+    | ScOk db r => if sc_refs_ok db (sc_nodes cs) then ScOk db r else ScErr EMalformed
+    | x => x
+    end.
+
+  Definition sc_sync_fix (local : sc_db) (b : sc_block) (cs : sc_change) : sc_res :=
+    if sc_valid (sc_root cs) (sc_nodes cs) then sc_apply_fix local b cs true else ScErr EInvalid.
+
+  (* a db that holds whole states: whatever a stored node refers to is stored *)
+  Definition sc_closed (db : sc_db) : Prop :=
+    forall n, In n db -> forall h, In h (children n) -> exists m, sc_get db h = Some m.
+
   (* NewBlockStateChange: the new nodes of the executed block and its root *)
   Definition sc_new_change (bh : bhash) (root : hash) (new_nodes : sc_db) : sc_change :=
     {| sc_blk := bh; sc_root := root; sc_nodes := new_nodes |}.
